@@ -177,8 +177,9 @@ class C01(Prop):
             # identical SGD update on both models so that later steps see different data/factors
             with torch.no_grad():
                 for (n1, p1), (n2, p2) in zip(model.named_parameters(), twin.named_parameters()):
-                    if p1.grad is not None:
-                        p1.add_(p1.grad, alpha=-0.05)
+                    if p1.grad is not None and torch.isfinite(p1.grad).all():
+                        # bounded update: keeps weights and data O(1) even when clipping is off
+                        p1.add_(p1.grad / max(1.0, p1.grad.abs().max().item()), alpha=-0.05)
                         p2.copy_(p1)
         labels['nontrivial'] = nontrivial
         return passed(nontrivial, labels, {'tol': worst_tol, 'err_over_tol': worst})
